@@ -947,6 +947,17 @@ func c20R6(p *core.Program, r *core.Report) {
 			}
 			r.Check(why == "", rule, f, construct, c.Pos(), "own memo, keyed by the argument, value computed by the same rule from the key",
 				why+": what the memo answers for an input then depends on earlier calls (an entry planted for Singularize(\"Men\") by Pluralize(\"MAN\") answers \"MAN\")")
+			// (4) the computation does not come back to the memo: a sync.OnceValue entered from inside its own function never returns
+			if w := inflectionWorker(p); w != nil && computed {
+				back := ""
+				for g := range reachableFrom(p, w) {
+					if g.Root() == root && back == "" {
+						back = "the memoised computation " + w.QName() + " reaches " + root.QName() + " again"
+					}
+				}
+				r.Check(back == "", rule, f, "the memoised computation does not re-enter the memo", c.Pos(), "nothing reachable from the computation calls the method that fills the memo",
+					back+": for an input whose inner call has the same key the sync.OnceValue is entered from inside its own function and never returns (every later caller with that input blocks too)")
+			}
 		}
 	}
 	if n == 0 {
